@@ -83,3 +83,118 @@ def run(cases):
         elif cur is not None:
             cur.append([float(x) for x in line.split()])
     return res, ""
+
+
+# ------------------------------------------------------------------------------------------------------------
+# OpenMP execution oracle: the *whole generated PSy module* (dm off, real-valued built-ins) is compiled with
+# gfortran -fopenmp against a minimal mock of the LFRic field API and run with several threads on
+# integer-valued data; results are compared with the documented formula evaluated serially by the driver.
+MOCK = """
+module constants_mod
+  implicit none
+  integer, parameter :: r_def = kind(1.0d0), i_def = kind(1)
+end module constants_mod
+module field_mod
+  use constants_mod, only: r_def, i_def
+  implicit none
+  type :: function_space_type
+    integer(i_def) :: undf = 0
+  contains
+    procedure :: get_undf
+  end type function_space_type
+  type :: field_proxy_type
+    real(r_def), pointer :: data(:) => null()
+    type(function_space_type) :: vspace
+  end type field_proxy_type
+  type :: field_type
+    real(r_def), pointer :: data(:) => null()
+    integer(i_def) :: undf = 0
+  contains
+    procedure :: get_proxy
+  end type field_type
+contains
+  function get_undf(self) result(undf)
+    class(function_space_type), intent(in) :: self
+    integer(i_def) :: undf
+    undf = self%undf
+  end function get_undf
+  function get_proxy(self) result(proxy)
+    class(field_type), intent(in) :: self
+    type(field_proxy_type) :: proxy
+    proxy%data => self%data
+    proxy%vspace%undf = self%undf
+  end function get_proxy
+end module field_mod
+"""
+
+
+def _f_expr(e):
+    k = e[0]
+    if k == "fld":
+        return f"x{e[1]}(df)"
+    if k == "scal":
+        return f"s{e[1]}"
+    if k == "lit":
+        return _lit(Fraction(e[1], e[2]), False)
+    sym = {"add": "+", "sub": "-", "mul": "*", "div": "/", "pow": "**"}
+    if k in sym:
+        return f"({_f_expr(e[1])} {sym[k]} {_f_expr(e[2])})"
+    if k == "neg":
+        return f"(-{_f_expr(e[1])})"
+    fn = {"abs": "ABS", "sign": "SIGN", "min": "MIN", "max": "MAX", "toReal": "", "toInt": "AINT", "mod": "MOD"}[k]
+    return fn + "(" + ", ".join(_f_expr(x) for x in e[1:]) + ")"
+
+
+def omp_driver(entries, ndofs, nrepeat):
+    """entries in invoke order (invoke_0, invoke_1, ...); all arguments real-valued."""
+    out = ["program c20_omp_driver", "  use constants_mod, only: r_def, i_def", "  use field_mod, only: field_type",
+           "  use c20_alg_psy", "  implicit none", f"  integer(i_def), parameter :: n = {ndofs}",
+           "  integer :: df, rep, nbad", "  real(r_def) :: expect", "  nbad = 0"]
+    for k, e in enumerate(entries):
+        out.append("  block")
+        nargs = len(e["meta"])
+        for pos, (arg, (kind, _, _)) in enumerate(zip(e["args"], e["meta"])):
+            if kind == "field":
+                out += [f"    type(field_type) :: {arg}", f"    real(r_def), allocatable :: x{pos}(:)"]
+            else:
+                out += [f"    real(r_def) :: {arg}, s{pos}"]
+        for pos, (arg, (kind, _, _)) in enumerate(zip(e["args"], e["meta"])):
+            if kind == "field":
+                out += [f"    allocate({arg}%data(n), x{pos}(n))", f"    {arg}%undf = n",
+                        f"    do df = 1, n", f"      x{pos}(df) = real(mod(df*{pos + 2}, 5) + 1, r_def)", "    end do"]
+            else:
+                out += [f"    s{pos} = {pos + 2}.0_r_def"]
+        out.append(f"    do rep = 1, {nrepeat}")
+        for pos, (arg, (kind, _, _)) in enumerate(zip(e["args"], e["meta"])):
+            out.append(f"      {arg}%data = x{pos}" if kind == "field" else f"      {arg} = s{pos}")
+        out.append(f"      call invoke_{k}({', '.join(e['args'])})")
+        d = e["doc"]
+        tgt = e["args"][d[1]]
+        if d[0] == "sum":
+            out += ["      expect = 0.0_r_def", "      do df = 1, n", f"        expect = expect + {_f_expr(d[2])}", "      end do",
+                    f"      if ({tgt} /= expect) then", "        nbad = nbad + 1",
+                    f"        write(*,'(A,2F22.1)') 'MISMATCH {e['case_name']} got/expected ', {tgt}, expect", "      end if"]
+        else:
+            out += ["      do df = 1, n", f"        if ({tgt}%data(df) /= {_f_expr(d[2])}) then", "          nbad = nbad + 1",
+                    f"          write(*,'(A,I0)') 'MISMATCH {e['case_name']} at df=', df", "          exit", "        end if", "      end do"]
+        out.append("    end do")
+        out.append("  end block")
+    out += ["  if (nbad > 0) stop 1", "  write(*,'(A)') 'ALL RESULTS CORRECT'", "end program c20_omp_driver"]
+    return "\n".join(out) + "\n"
+
+
+def omp_run(module_text, entries, nthreads=8, ndofs=300000, nrepeat=3):
+    """-> (ok, output)."""
+    with tempfile.TemporaryDirectory(prefix="c20_omp_") as d:
+        for name, text in (("mock.f90", MOCK), ("psy.f90", module_text), ("driver.f90", omp_driver(entries, ndofs, nrepeat))):
+            open(os.path.join(d, name), "w").write(text)
+        try:
+            p = subprocess.run(["gfortran", "-O1", "-fopenmp", "-ffree-line-length-none", "mock.f90", "psy.f90",
+                                "driver.f90", "-o", "o"], cwd=d, capture_output=True, text=True, timeout=600)
+        except (FileNotFoundError, subprocess.TimeoutExpired) as e:
+            raise common.Infra("gfortran: " + str(e))
+        if p.returncode != 0:
+            return None, p.stderr[-1500:]
+        env = dict(os.environ, OMP_NUM_THREADS=str(nthreads), OMP_DYNAMIC="false")
+        r = subprocess.run([os.path.join(d, "o")], cwd=d, capture_output=True, text=True, env=env, timeout=900)
+        return r.returncode == 0, (r.stdout + r.stderr)[-1500:]
